@@ -361,6 +361,7 @@ def base_models(gdim=None, tdim=None):
         "NotCondition": m_not,
         "MinValue": m_minmax("MinValue", "min"),
         "MaxValue": m_minmax("MaxValue", "max"),
+        "Variable": lambda e, label=None: node(as_T(e), "Variable", (as_T(e), label), label=lambda: label),
         "PositiveRestricted": m_restricted("+"),
         "NegativeRestricted": m_restricted("-"),
     }
@@ -403,6 +404,31 @@ def base_models(gdim=None, tdim=None):
     return cm, ov
 
 
+def struct_eq(a, b, depth=0):
+    """Structural equality of structured expressions (model of Expr.__eq__ / expr_equals)."""
+    if a is b:
+        return True
+    if isinstance(a, MI) or isinstance(b, MI):
+        return isinstance(a, MI) and isinstance(b, MI) and len(a) == len(b) and all(x is y or (isinstance(x, int) and isinstance(y, int) and x == y) for x, y in zip(a, b))
+    if isinstance(a, Cnd) and isinstance(b, Cnd):
+        return a.ex is b.ex
+    if not (isinstance(a, T) and isinstance(b, T)):
+        return a is b
+    ka, kb = a.tags.get("key"), b.tags.get("key")
+    if ka is not None or kb is not None:
+        return ka == kb
+    ca, cb = a.tags.get("ufl_class"), b.tags.get("ufl_class")
+    if ca is None or cb is None or ca != cb or depth > 40:
+        return False
+    oa, ob = a.tags.get("ufl_operands", ()), b.tags.get("ufl_operands", ())
+    if len(oa) != len(ob):
+        return False
+    if not oa:
+        # literals
+        return a.shape == b.shape and a.fimap() == b.fimap() and all(a.data[k] is b.data.get(k) for k in a.data)
+    return all(struct_eq(x, y, depth + 1) for x, y in zip(oa, ob))
+
+
 def install(ip: Interp, gdim=None, tdim=None):
     cm, ov = base_models(gdim, tdim)
     ip.class_models.update(cm)
@@ -420,12 +446,8 @@ def install(ip: Interp, gdim=None, tdim=None):
 
         if (isinstance(a, T) or isinstance(b, T)) and op in (_ast.Lt, _ast.Gt, _ast.LtE, _ast.GtE):
             return m_rel({_ast.Lt: "<", _ast.Gt: ">", _ast.LtE: "<=", _ast.GtE: ">="}[op])(a, b)
-        if isinstance(a, T) and isinstance(b, T) and op in (_ast.Eq, _ast.NotEq):
-            ka, kb = a.tags.get("key"), b.tags.get("key")
-            if a is b:
-                return op is _ast.Eq
-            if ka is not None and kb is not None:
-                return (ka == kb) == (op is _ast.Eq)
+        if isinstance(a, (T, MI, Cnd)) and isinstance(b, (T, MI, Cnd)) and op in (_ast.Eq, _ast.NotEq):
+            return struct_eq(a, b) == (op is _ast.Eq)
         if isinstance(a, T) and a.shape == () and not a.fi and isinstance(b, (int, Fraction)) and op in (_ast.Eq, _ast.NotEq):
             # `expr == 0` style checks (Expr.__eq__ with a python scalar): literal comparison
             e = a.get()
